@@ -254,7 +254,7 @@ def _normalise_blocks(blocks):
 _CMP_OPS = ('==', '!=', '<', '>', '<=', '>=')
 
 
-def _bool_value_expr(e):
+def _bool_value_expr(e, memory_ok=False):
     """e (without parens / casts) if it is a comparison, possibly under `!`; else None."""
     x = e
     while isinstance(x, dict) and x.get('k') in ('paren', 'cast') and isinstance(x.get('e'), dict):
@@ -267,8 +267,11 @@ def _bool_value_expr(e):
     if isinstance(y, dict) and y.get('k') == 'bin' and y.get('op') in _CMP_OPS:
         # only comparisons over locals, parameters, constants and call results: a condition over memory
         # (members, subscripts, dereferences) is left alone
+        # comparisons over memory (members, subscripts, dereferences) are split as well: the diamond evaluates
+        # the comparison where the assignment stands, which is exactly what the assignment does
+        # (only in small functions: in a long matcher loop the extra path split multiplies the states)
         for z in walk(y):
-            if z.get('k') in ('member', 'sub') or (z.get('k') == 'un' and z.get('op') == '*'):
+            if not memory_ok and (z.get('k') in ('member', 'sub') or (z.get('k') == 'un' and z.get('op') == '*')):
                 return None
             if z.get('k') == 'ref' and z.get('kind') not in ('local', 'param'):
                 return None
@@ -281,6 +284,7 @@ def _split_bool_assigns(blocks):
     a condition kept in a local behaves like the branch it abbreviates (same semantics, and every
     path-sensitive rule sees the comparison as an edge)."""
     nxt = max(b['id'] for b in blocks) + 1 if blocks else 0
+    small = len(blocks) <= 24
     out = list(blocks)
     work = list(blocks)
     while work:
@@ -294,7 +298,7 @@ def _split_bool_assigns(blocks):
                 tgt, rhs = ev['var'], ev['init']
             if tgt is None:
                 continue
-            cond = _bool_value_expr(rhs)
+            cond = _bool_value_expr(rhs, small)
             if cond is None:
                 continue
             bt, bf, bc = nxt, nxt + 1, nxt + 2
